@@ -204,6 +204,8 @@ class StreamView:
     @property
     def status(self):
         for h in self.heads:
+            if h is None:
+                continue  # a header block the decoder could not read (recorded in the reader's errors)
             st = dict(h).get(b":status")
             if st is not None and not st.startswith(b"1"):
                 return int(st)
@@ -211,6 +213,8 @@ class StreamView:
 
     def final_headers(self):
         for h in self.heads:
+            if h is None:
+                continue  # a header block the decoder could not read (recorded in the reader's errors)
             st = dict(h).get(b":status")
             if st is not None and not st.startswith(b"1"):
                 return [(n, v) for n, v in h if not n.startswith(b":")]
@@ -219,6 +223,8 @@ class StreamView:
     def trailers(self):
         seen_final = False
         for h in self.heads:
+            if h is None:
+                continue  # a header block the decoder could not read (recorded in the reader's errors)
             st = dict(h).get(b":status")
             if seen_final and st is None:
                 return h
@@ -483,6 +489,10 @@ class H2Reactor:
             sid, inc = args[1], args[2]
             self.sent_window_update(sid, inc)
             return [["feed_nosettle", self.fb.window_update(sid, inc)]]
+        if op == "credit_only":
+            # the scripted client is about to send this WINDOW_UPDATE itself (inside a larger write): account for it, send nothing
+            self.sent_window_update(args[1], args[2])
+            return []
         if op == "settings":
             st = {int(k): v for k, v in args[1].items()}
             self.sent_settings(st)
